@@ -136,8 +136,8 @@ def normCol (c : ColumnInfo) : ColumnInfo := { c with typ := if specKnows c.typi
 def normTable (t : TableDump) : TableDump := { t with columns := t.columns.map normCol }
 def normDb (d : DatabaseDump) : DatabaseDump := { d with tables := d.tables.map normTable }
 
-theorem normCol_attr (ab : AttrRow → UInt8) (a : AttrRow) :
-    normCol ⟨(attrInfoOf ab a).name, Model.typeName (attrInfoOf ab a).typid, (attrInfoOf ab a).typid⟩ =
+theorem normCol_attr (a : AttrRow) :
+    normCol ⟨(attrInfoOf a).name, Model.typeName (attrInfoOf a).typid, (attrInfoOf a).typid⟩ =
       ⟨a.name, (Spec.typeName a.typid).getD [], a.typid⟩ := by
   unfold normCol specKnows attrInfoOf
   simp only [Int.toNat_natCast]
@@ -242,14 +242,24 @@ def DenseFrom : Nat → List AttrRow → Prop
   | _, [] => True
   | i, a :: as => a.num = (i : Int) + 1 ∧ DenseFrom (i + 1) as
 
-/-- the `Column` dumpTable builds for an attribute -/
-def toolColumn (ab : AttrRow → UInt8) (a : AttrRow) : Column := ⟨a.name, a.typid, a.len, a.num, (ab a).toNat⟩
+/-- the `Column` dumpTable builds for an attribute: `Align` is the attalign character ParsePGAttribute read -/
+def toolColumn (a : AttrRow) : Column := ⟨a.name, a.typid, a.len, a.num, (alignByte a).toNat⟩
 
-theorem colsMatch_attrs (ab : AttrRow → UInt8) : ∀ (i : Nat) (as : List AttrRow), DenseFrom i as →
-    (∀ a ∈ as, colAlign (toolColumn ab a) = a.align) → ColsMatch i (as.map (toolColumn ab)) (as.map attrCol)
+/-- **DecodeTuple gets the true alignment** (fixes/cluster/08): the attalign character of the catalog row, turned back
+into bytes by `alignFromChar`, is the attribute's alignment — for every type, known to `typeAlign` or not, dropped or not -/
+theorem toolColumn_align (a : AttrRow) (h : a.align = 1 ∨ a.align = 2 ∨ a.align = 4 ∨ a.align = 8) :
+    colAlign (toolColumn a) = a.align := by
+  have hc : alignFromChar (UInt8.ofNat (alignCh a.align)).toNat = a.align := by
+    rcases h with h | h | h | h <;> rw [h] <;> decide
+  unfold colAlign toolColumn alignByte
+  simp only [hc]
+  rw [if_neg (by omega)]
+
+theorem colsMatch_attrs : ∀ (i : Nat) (as : List AttrRow), DenseFrom i as →
+    (∀ a ∈ as, a.align = 1 ∨ a.align = 2 ∨ a.align = 4 ∨ a.align = 8) → ColsMatch i (as.map toolColumn) (as.map attrCol)
   | _, [], _, _ => trivial
   | i, a :: as, hd, ha => by
-    refine ⟨⟨rfl, rfl, rfl, Or.inr hd.1, ha a (by simp)⟩, colsMatch_attrs ab (i + 1) as hd.2 (fun x hx => ha x (by simp [hx]))⟩
+    refine ⟨⟨rfl, rfl, rfl, Or.inr hd.1, toolColumn_align a (ha a (by simp))⟩, colsMatch_attrs (i + 1) as hd.2 (fun x hx => ha x (by simp [hx]))⟩
 
 
 
@@ -270,12 +280,39 @@ theorem relOfFilenode_eq (cls : HeapOf ClassRow) (r : ClassRow) (hr : r ∈ cls.
     have h2 : r ∈ cls.live.filter (·.filenode != 0) := mem_filter.mpr ⟨hr, by simpa using hf⟩
     rw [hinj r' h1 r h2 hp]
 
-/-- what lets the tool read the heap of relation `r` correctly: attnums without gaps, the alignment it falls back to
-is the true one (else finding A03), and a table without columns has no live row (else finding A01z) -/
-structure RelReadable (l : Layout) (d : DbContent) (r : ClassRow) : Prop where
+/-- what the tool needs of relation `r` to read its heap with the catalog's columns: attnums 1..n without gaps (every real
+relation: a dropped column keeps its pg_attribute row) -/
+structure RelReadable (d : DbContent) (r : ClassRow) : Prop where
   dense : DenseFrom 0 (userAttrs d.att r.oid)
-  aligned : ∀ a ∈ userAttrs d.att r.oid, colAlign (toolColumn (toolAlignByte l) a) = a.align
-  nonempty : userAttrs d.att r.oid = [] → ∀ pages, d.heaps.lookup r.filenode = some pages → liveRows pages [] = []
+
+/-- **a table without columns** (fixes/cluster/09): readTableRows gives one empty row per live row version -/
+theorem readTableRows_nocols (dec : Dec) (pages : List (List RowV)) (hwf : ∀ pg ∈ pages, ∀ r ∈ pg, r.WF [])
+    (hfit : pagesFit (pages.map fun pg => pg.map (formTuple []))) :
+    readTableRows (readRows dec) (encRowPages [] pages) [] = .ok ((liveRows pages []).map (rowOf (varlenaVal dec) [])) := by
+  unfold readTableRows
+  rw [if_neg (by simp)]
+  unfold encRowPages
+  rw [encTuplePages_eq]
+  obtain ⟨es, hes, hmap⟩ := scan_tuples (blocksOf (pages.map fun pg => pg.map (formTuple []))) [] true
+    (blocksOf_WF _ (heap_tuples_WF [] pages hwf) hfit) (by simp)
+  rw [hes]
+  simp only [ok_bind, pure_eq_ok]
+  have hlen : es.length = (liveRows pages []).length := by
+    have h1 := congrArg List.length hmap
+    rw [length_map, length_map, fileTuples_blocksOf, heap_flatten, filter_map, length_map] at h1
+    rw [h1]
+    unfold liveRows
+    congr 1
+  have hrow : ∀ r ∈ liveRows pages [], rowOf (varlenaVal dec) [] r = [] := by
+    intro r _
+    unfold rowOf rowView
+    cases r.vals <;> rfl
+  congr 1
+  rw [map_const', hlen]
+  symm
+  exact eq_replicate_iff.mpr ⟨length_map _, fun b hb => by
+    obtain ⟨r, hr, rfl⟩ := mem_map.mp hb
+    exact hrow r hr⟩
 
 /-- the rows the specification expects for relation `r` -/
 def specRows (val : Spec.Val) (d : DbContent) (o : Options) (r : ClassRow) : List DRow :=
@@ -301,13 +338,13 @@ theorem table_eq (r : ClassRow) (hk : r.kind = 114) (colsM : List ColumnInfo) (s
   simp only [normTable, infoOfRel, hk]
   rfl
 
-theorem modelCols_norm (ab : AttrRow → UInt8) (as : List AttrRow) :
-    (((as.map (attrInfoOf ab)).map fun a => (⟨a.name, Model.typeName a.typid, a.typid⟩ : ColumnInfo)).map normCol) =
+theorem modelCols_norm (as : List AttrRow) :
+    (((as.map attrInfoOf).map fun a => (⟨a.name, Model.typeName a.typid, a.typid⟩ : ColumnInfo)).map normCol) =
       as.map fun a => ⟨a.name, (Spec.typeName a.typid).getD [], a.typid⟩ := by
   rw [map_map, map_map]
   apply map_congr_left
   intro a _
-  exact normCol_attr ab a
+  exact normCol_attr a
 
 theorem lookup_mem' {β} (m : List (Nat × β)) (k : Nat) (v : β) (h : m.lookup k = some v) : (k, v) ∈ m :=
   lookup_mem m k v h
@@ -320,13 +357,18 @@ theorem dumpTable_spec (dec : Dec) (l : Layout) (d : DbContent) (o : Options) (r
     (hr : r ∈ d.cls.live) (hkind : r.kind = 114) (hfn : r.filenode ≠ 0) (hwf : d.WF l)
     (hreader : o.listOnly = false →
       rd r.filenode = (d.heaps.lookup r.filenode).map (encRowPages (colsOfFilenode d r.filenode)))
-    (hok : ∀ pages, d.heaps.lookup r.filenode = some pages → o.listOnly = false → pages ≠ [] → RelReadable l d r)
+    (hok : ∀ pages, d.heaps.lookup r.filenode = some pages → o.listOnly = false → pages ≠ [] → RelReadable d r)
     (t : TableDump)
-    (h : dumpTable (readRows dec) r.filenode (infoOfRel r) ((userAttrs d.att r.oid).map (attrInfoOf (toolAlignByte l))) (some rd) o = .ok t) :
+    (h : dumpTable (readRows dec) r.filenode (infoOfRel r) ((userAttrs d.att r.oid).map attrInfoOf) (some rd) o = .ok t) :
     normTable t = expectedTable (varlenaVal dec) d o r := by
+  have halign : ∀ a ∈ userAttrs d.att r.oid, a.align = 1 ∨ a.align = 2 ∨ a.align = 4 ∨ a.align = 8 := by
+    intro a ha
+    have ha' : a ∈ d.att.live := (mem_filter.mp ((mem_sortAttrs a _).mp ha)).1
+    obtain ⟨s, hs, rfl⟩ := live_mem_versions d.att a ha'
+    exact (hwf.2.2.2.2.2.1 s hs).2.2.2.2.2.2.2.2.2
   obtain ⟨_, _, hfnd, _, _, _, _, _, _, hheaps⟩ := hwf
   rw [expectedTable_eq]
-  have hcols := modelCols_norm (toolAlignByte l) (userAttrs d.att r.oid)
+  have hcols := modelCols_norm (userAttrs d.att r.oid)
   have hcf : colsOfFilenode d r.filenode = (userAttrs d.att r.oid).map attrCol := by
     unfold colsOfFilenode
     rw [relOfFilenode_eq d.cls r hr hfn hfnd]
@@ -368,13 +410,13 @@ theorem dumpTable_spec (dec : Dec) (l : Layout) (d : DbContent) (o : Options) (r
           have hpne : pages ≠ [] := by
             intro hp; apply hd0; rw [hlen, hp]; rfl
           have hrd' := hok pages hlk hl hpne
-          have hmc : ((userAttrs d.att r.oid).map (attrInfoOf (toolAlignByte l))).map
+          have hmc : ((userAttrs d.att r.oid).map attrInfoOf).map
               (fun a => (⟨a.name, a.typid, a.len, a.num, a.align⟩ : Column)) =
-              (userAttrs d.att r.oid).map (toolColumn (toolAlignByte l)) := by
+              (userAttrs d.att r.oid).map toolColumn := by
             rw [map_map]; rfl
           rw [hmc] at h
-          cases hrr : readRows dec (encRowPages ((userAttrs d.att r.oid).map attrCol) pages)
-              ((userAttrs d.att r.oid).map (toolColumn (toolAlignByte l))) true with
+          cases hrr : readTableRows (readRows dec) (encRowPages ((userAttrs d.att r.oid).map attrCol) pages)
+              ((userAttrs d.att r.oid).map toolColumn) with
           | error e => simp [hrr] at h
           | ok rows =>
             simp only [hrr, ok_bind, pure_eq_ok] at h
@@ -382,16 +424,19 @@ theorem dumpTable_spec (dec : Dec) (l : Layout) (d : DbContent) (o : Options) (r
             refine table_eq r hkind _ _ rows _ hcols ?_
             simp only [specRows, hl, hlk, Bool.false_eq_true, if_false]
             by_cases hempty : userAttrs d.att r.oid = []
-            · have hlive := hrd'.nonempty hempty pages hlk
-              rw [hempty] at hrr ⊢
+            · rw [hempty] at hrr ⊢
               simp only [map_nil] at hrr ⊢
               rw [hempty] at hrows hfit
-              rw [readRows_nolive dec [] [] pages (fun pg hpg r' hr' => (hrows pg hpg r' hr').1) hfit hlive] at hrr
+              rw [readTableRows_nocols dec pages (fun pg hpg r' hr' => (hrows pg hpg r' hr').1) hfit] at hrr
               injection hrr with hrr
-              rw [← hrr, hlive]; rfl
-            · exact readRows_heap dec _ _ pages
-                (colsMatch_attrs (toolAlignByte l) 0 _ hrd'.dense hrd'.aligned)
-                (by intro hm; exact hempty (map_eq_nil_iff.mp hm))
+              exact hrr.symm
+            · have hne : (userAttrs d.att r.oid).map toolColumn ≠ [] := by
+                intro hm; exact hempty (map_eq_nil_iff.mp hm)
+              unfold readTableRows at hrr
+              rw [if_pos (by exact length_pos_iff.mpr hne)] at hrr
+              exact readRows_heap dec _ _ pages
+                (colsMatch_attrs 0 _ hrd'.dense halign)
+                hne
                 (fun pg hpg r' hr' => (hrows pg hpg r' hr').1) hfit hnames rows hrr
 
 
@@ -416,8 +461,8 @@ theorem dbWF_parts (l : Layout) (d : DbContent) (hwf : d.WF l) :
     AttHeapWF l d.att ∧ (∀ r ∈ d.cls.live, r.kind < 256) ∧ (∀ r ∈ d.cls.live, 0 < r.oid) := by
   obtain ⟨_, _, _, hcls, _, hatt, _, hfita, _, _⟩ := hwf
   refine ⟨fun s hs => ⟨(hcls s hs).1, (hcls s hs).2.1, (hcls s hs).2.2.2.1, (hcls s hs).2.2.2.2.2⟩, ⟨fun s hs => ?_, hfita⟩, ?_, ?_⟩
-  · obtain ⟨h1, _, h3, h4, h5, h6, h7, h8, h9, _⟩ := hatt s hs
-    exact ⟨⟨h1, h3, h4, ⟨h5, h6⟩, ⟨h7, h8⟩⟩, h9⟩
+  · obtain ⟨h1, _, h3, h4, h5, h6, h7, h8, h9, h10⟩ := hatt s hs
+    exact ⟨⟨h1, h3, h4, ⟨h5, h6⟩, ⟨h7, h8⟩, h10⟩, h9⟩
   · intro r hr
     obtain ⟨s, hs, rfl⟩ := live_mem_versions d.cls r hr
     exact (hcls s hs).2.2.2.2.1
@@ -435,7 +480,7 @@ theorem dumpDatabase_tables (dec : Dec) (hd : CatDec dec) (π : MapOrder TableIn
         (encHeapOf (pgAttributeCols l) (attrVals l) d.att) reader o =
       collectM (fun r : ClassRow => do
           let t ← dumpTable (readRows dec) r.filenode (infoOfRel r)
-            ((userAttrs d.att r.oid).map (attrInfoOf (toolAlignByte l))) reader o
+            ((userAttrs d.att r.oid).map attrInfoOf) reader o
           pure (some t))
         (sortBy ClassRow.filenode (d.cls.live.filter (selectedRel o))) := by
   obtain ⟨hcls, haw, hkind, hoid⟩ := dbWF_parts l d hwf
@@ -451,7 +496,7 @@ theorem dumpDatabase_tables (dec : Dec) (hd : CatDec dec) (π : MapOrder TableIn
   apply collectM_congr
   intro r hr
   have hmem := mem_filter.mp ((sortBy_perm _ _).subset hr)
-  have hat : (mapGet attrs (infoOfRel r).oid).getD [] = (userAttrs d.att r.oid).map (attrInfoOf (toolAlignByte l)) :=
+  have hat : (mapGet attrs (infoOfRel r).oid).getD [] = (userAttrs d.att r.oid).map attrInfoOf :=
     hattrs r.oid (hoid r hmem.1)
   rw [hat]
   rfl
@@ -464,7 +509,7 @@ theorem dumpDatabase_spec (dec : Dec) (hd : CatDec dec) (π : MapOrder TableInfo
     (hreader : ∀ r ∈ d.cls.live, selectedRel o r = true → o.listOnly = false →
       rd r.filenode = (d.heaps.lookup r.filenode).map (encRowPages (colsOfFilenode d r.filenode)))
     (hok : ∀ r ∈ d.cls.live, selectedRel o r = true → ∀ pages, d.heaps.lookup r.filenode = some pages →
-      o.listOnly = false → pages ≠ [] → RelReadable l d r)
+      o.listOnly = false → pages ≠ [] → RelReadable d r)
     (ts : List TableDump)
     (h : dumpDatabaseFromFiles (readRows dec) π (encHeapOf pgClassCols classVals d.cls)
           (encHeapOf (pgAttributeCols l) (attrVals l) d.att) (some rd) o = .ok ts) :
@@ -510,14 +555,15 @@ structure TreeOf (c : Cluster) (fs : Bytes → Option Bytes) : Prop where
     fs (basePath oid fn) = (d.heaps.lookup fn).map (encRowPages (colsOfFilenode d fn))
   missing : ∀ oid, c.content.lookup oid = none → fs (basePath oid 1259) = none
 
-/-- what the tool needs of a database (beyond `DbContent.WF`) to dump it under options `o`: the pg_attribute schema
-choice works out (else A04), the ordinary tables it dumps do not share a file name with a catalog or a non-heap
-relation, and their heaps are readable (else A03 / A01z) -/
+/-- what the tool needs of a database (beyond `DbContent.WF`) to dump it under options `o` — conditions every real cluster
+meets but `DbContent.WF` does not state: the version hint (if any) names the layout and the attstorage characters are legal
+ones (`SchemaOK`), the ordinary tables it dumps do not share a file name with a catalog or a non-heap relation, and their
+attnums have no gaps -/
 structure DbDumpable (l : Layout) (d : DbContent) (o : Options) : Prop where
   schema : SchemaOK l d.att o.pgVersion
   files : ∀ r ∈ d.cls.live, selectedRel o r = true → r.filenode ≠ 1259 ∧ r.filenode ≠ 1249 ∧ d.raws.lookup r.filenode = none
   readable : ∀ r ∈ d.cls.live, selectedRel o r = true → ∀ pages, d.heaps.lookup r.filenode = some pages →
-    o.listOnly = false → pages ≠ [] → RelReadable l d r
+    o.listOnly = false → pages ≠ [] → RelReadable d r
 
 theorem encHeapOf_length {α} (cols : List Col) (vals : α → List (Option Datum)) (h : HeapOf α)
     (hwf : ∀ s ∈ h.versions, RowV.WF cols ⟨vals s.val, cols.length, s.infomask⟩)
@@ -708,33 +754,5 @@ theorem dumpDataDir_databases (dec : Dec) (hd : CatDec dec) (π : MapOrder Table
     rw [this, map_filterMap]
 
 
-
-/-! ### the alignment the tool ends up with (finding A03) -/
-
-theorem alignFromChar_0_255 (x : Nat) (h : x = 0 ∨ x = 255) : alignFromChar x = 0 := by
-  rcases h with rfl | rfl <;> rfl
-
-/-- The byte the tool takes for `attalign` is never an alignment character on the 12–15 layouts (0xFF), nor on the
-16 layout for every type modifier PostgreSQL produces (−1, or below 2²⁴: the byte is 0xFF or 0x00): DecodeTuple then
-always uses its `typeAlign(typid, attlen)` fallback.  So "the alignment the tool ends up with is the true one"
-(`RelReadable.aligned`) is `typeAlign a.typid a.len = a.align` — the complement of the recorded class A03. -/
-theorem toolAlign_fallback (l : Layout) (a : AttrRow) (h : l ≠ .v16 ∨ (-16777216 ≤ a.typmod ∧ a.typmod < 16777216)) :
-    colAlign (toolColumn (toolAlignByte l) a) = typeAlign a.typid a.len := by
-  have hb : (toolAlignByte l a).toNat = 0 ∨ (toolAlignByte l a).toNat = 255 := by
-    by_cases hl : l = .v16
-    · subst hl
-      rcases h with h | h
-      · exact absurd rfl h
-      · simp only [toolAlignByte, b3, UInt8.toNat_ofNat']
-        unfold ofSigned
-        simp only [Nat.reducePow]
-        omega
-    · rw [toolAlignByte_15 l hl]
-      right
-      rw [ofSigned32_neg1]
-      show (b3 4294967295).toNat = 255
-      decide
-  unfold colAlign toolColumn
-  simp only [alignFromChar_0_255 _ hb, if_true]
 
 end PgVerif.Proofs.Cluster
